@@ -71,6 +71,8 @@ def write_replay(prop, v):
         "sig": v["sig"],
         "case": v["case"],
         "detail": v.get("detail"),
+        "task_history": v.get("task_history") if v.get("history_dependent") else None,
+        "history_dependent": bool(v.get("history_dependent", False)),
         "count_in_run": v.get("count"),
         "tree_digest": tree_digest(),
         "repo": runner.repo_root(),
@@ -108,9 +110,38 @@ def write_evidence(prop, tier, seed, level, coverage, assumptions, wall, nviol, 
 
 
 def confirm(mod, v, pool):
-    """Re-execute the failing case twice in other processes; must reproduce."""
-    sigs = pool.map(mod.__name__, "replay_sigs", [v["case"], v["case"]])
-    return all(v["sig"] in s for s in sigs), sigs
+    """Re-execute the failing case twice in other processes; it must reproduce. A violation that does not
+    reproduce in isolation is re-tried by re-running, in a fresh process, the whole shard of the enumeration it
+    was found in (same order): if it reappears it depends on the calls made before it (state kept by the
+    library between calls) and is reported as such; otherwise it is a harness error."""
+    # each replay runs in a process of its own that has executed nothing else
+    sigs = pool.map_fresh(mod.__name__, "replay_sigs", [v["case"], v["case"]])
+    if all(v["sig"] in s for s in sigs):
+        return True, sigs
+    # the earliest recorded case may have been an artefact of state left in its worker by earlier cases: look for
+    # the earliest recorded case with this signature that reproduces in a pristine process
+    alts = v.get("alternates") or []
+    if alts:
+        res = pool.map_fresh(mod.__name__, "replay_sigs", alts)
+        for case, s1 in zip(alts, res):
+            if v["sig"] in s1:
+                s2 = pool.map_fresh(mod.__name__, "replay_sigs", [case])[0]
+                if v["sig"] in s2:
+                    v["case"] = case
+                    return True, [s1, s2]
+    hist = v.get("task_history")
+    if hist:
+        accs = []
+        for _ in range(2):
+            fresh = runner.Pool(1)  # a new process each time
+            try:
+                accs.append(fresh.map("mc.runner", "run_task_sequence", [hist])[0])
+            finally:
+                fresh.close()
+        if all(v["sig"] in a.violations for a in accs):
+            v["history_dependent"] = True
+            return True, sigs
+    return False, sigs
 
 
 def main(argv=None):
@@ -139,8 +170,16 @@ def main(argv=None):
     if args.replay:
         with open(args.replay) as f:
             body = json.load(f)
-        sigs = mod.replay_sigs(body["case"])
-        print(f"replay {args.replay}: signatures observed now: {sorted(sigs)}")
+        sigs = list(mod.replay_sigs(body["case"]))
+        if body["sig"] not in sigs and body.get("history_dependent") and body.get("task_history"):
+            # the recorded violation needs the calls that preceded it: re-run the recorded task sequence
+            p1 = runner.Pool(1)
+            try:
+                acc = p1.map("mc.runner", "run_task_sequence", [body["task_history"]])[0]
+            finally:
+                p1.close()
+            sigs += list(acc.violations.keys())
+        print(f"replay {args.replay}: signatures observed now: {sorted(set(sigs))}")
         if body["sig"] in sigs:
             print(f"VIOLATION property={prop} replay={args.replay}")
             return 1
@@ -171,6 +210,8 @@ def main(argv=None):
             print(f"KNOWN-FINDING: property={prop} {k['what']} [sig={v['sig']} count={v.get('count')}]")
         for v, _ in new:
             path = write_replay(prop, v)
+            if v.get("history_dependent"):
+                print(f"  detail: sig={v['sig']} occurs only after the preceding cases of its enumeration shard (the library keeps state between calls); replay re-runs that shard")
             print(f"  detail: sig={v['sig']} count={v.get('count')} case={json.dumps(jsonable(v['case']))[:600]}")
             print(f"  detail: {json.dumps(jsonable(v.get('detail')))[:800]}")
             print(f"VIOLATION property={prop} replay={path}")
